@@ -28,6 +28,10 @@ func (p Protocol) MatchesModelProtocol(protocol numorstring.Protocol) bool {
 			// Special case: named ports default to Any if protocol isn't specified.
 			return p == ProtocolAny
 		}
+		if p == ProtocolAny {
+			// As for named protocols below, "any" matches every protocol.
+			return true
+		}
 		return protocol.NumVal == uint8(p)
 	}
 	switch p {
